@@ -39,6 +39,7 @@ func TestC11(t *testing.T) {
 			}
 			b := gen.New(rt, o)
 			b.OpenNonComparable = s.Open("F-ZERO-NONCOMPARABLE")
+		b.OpenPtrSrcWhole = s.Open("F-UPDATE-PTRSRC-WHOLE")
 			b.OpenNestedStale = s.Open("F-UPDATE-NESTED-STALE")
 			b.OpenNilPtrSub = s.Open("F-UPDATE-NILLABLE-CALL")
 		b.OpenNilPtrSub = s.Open("F-UPDATE-NILLABLE-CALL")
